@@ -90,10 +90,15 @@ uint32_t count_min_sketch<W,A>::suggest_num_buckets(double relative_error) {
    * Function to help users select a number of buckets for a given error.
    * TODO: Change this when we use only power of 2 buckets.
    */
-  if (relative_error < 0.) {
+  if (!(relative_error >= 0.)) { // refuses NaN, too
     throw std::invalid_argument("Relative error must be at least 0.");
   }
-  return static_cast<uint32_t>(ceil(exp(1.0) / relative_error));
+  const double num_buckets = ceil(exp(1.0) / relative_error);
+  // converting a double that does not fit is undefined (in practice it wrapped: 1e-10 gave fewer buckets than 1e-9)
+  if (!(num_buckets <= static_cast<double>(std::numeric_limits<uint32_t>::max()))) {
+    throw std::invalid_argument("Relative error is too small: the number of buckets does not fit in 32 bits.");
+  }
+  return static_cast<uint32_t>(num_buckets);
 }
 
 template<typename W, typename A>
@@ -103,10 +108,11 @@ uint8_t count_min_sketch<W,A>::suggest_num_hashes(double confidence) {
    * e.g. confidence = 1 - failure probability
    * failure probability == delta in the literature.
    */
-  if (confidence < 0. || confidence > 1.0) {
+  if (!(confidence >= 0. && confidence <= 1.0)) { // refuses NaN, too
     throw std::invalid_argument("Confidence must be between 0 and 1.0 (inclusive).");
   }
-  return std::min<uint8_t>(ceil(log(1.0 / (1.0 - confidence))), UINT8_MAX);
+  // clamp before converting: std::min<uint8_t> converted first, which is undefined for confidence = 1 (infinity; it gave 0)
+  return static_cast<uint8_t>(std::min(ceil(log(1.0 / (1.0 - confidence))), static_cast<double>(UINT8_MAX)));
 }
 
 template<typename W, typename A>
